@@ -39,7 +39,9 @@ Record step (ro : option N) (R : N -> Prop) (s s' : st) : Prop := {
                 match ro with Some r => mem x (aget r (cbs s')) = true | None => False end;
   st_noown : forall x, next s <= x -> bit (TRef x) x s' = false;
   st_cbs_other : forall k, Some k <> ro -> alookup k (cbs s') = alookup k (cbs s);
-  st_cbs_mono : forall r x, ro = Some r -> mem x (aget r (cbs s)) = true -> mem x (aget r (cbs s')) = true
+  st_cbs_mono : forall r x, ro = Some r -> mem x (aget r (cbs s)) = true -> mem x (aget r (cbs s')) = true;
+  st_cbs_new : forall r x, ro = Some r -> mem x (aget r (cbs s')) = true ->
+                 mem x (aget r (cbs s)) = true \/ next s <= x
 }.
 
 Definition stk (s s' : st) : Prop := meta s' = meta s /\ rctx s' = rctx s.
@@ -77,6 +79,9 @@ Proof.
     + apply (st_noown _ _ _ _ B x Hge).
   - intros k Hk. rewrite (st_cbs_other _ _ _ _ B k Hk). apply (st_cbs_other _ _ _ _ A k Hk).
   - intros r x Hr Hm. eapply (st_cbs_mono _ _ _ _ B); eauto. eapply (st_cbs_mono _ _ _ _ A); eauto.
+  - intros r x Hr Hm. destruct (st_cbs_new _ _ _ _ B r x Hr Hm) as [H|H].
+    + apply (st_cbs_new _ _ _ _ A r x Hr H).
+    + right. eapply N.le_trans; [apply A | exact H].
 Qed.
 
 Lemma step_weaken ro (R R' : N -> Prop) s s' : (forall x, R x -> R' x) -> step ro R s s' -> step ro R' s s'.
@@ -99,6 +104,7 @@ Proof.
   - intros x Hx. rewrite Hn in Hx. rewrite Bs'. apply st_noown0. exact Hx.
   - intros k Hk. rewrite Hc, Hc'. auto.
   - intros r x Hr. rewrite Hc, Hc'. eauto.
+  - intros r x Hr. rewrite Hc, Hc', Hn. eauto.
 Qed.
 
 Lemma step_trans0 ro s s1 s2 :
@@ -164,4 +170,80 @@ Proof.
   - rewrite (st_frozen _ _ _ _ A _ G1); auto.
   - eapply (st_cbs_mono _ _ _ _ A); eauto.
   - intros P HP. rewrite (st_frozen _ _ _ _ A _ G1); auto.
+Qed.
+
+(* ---------- more ways to obtain a step ---------- *)
+Lemma step_strengthen ro (R R' : N -> Prop) s s' :
+  step ro R s s' -> (forall x, x < next s -> R x -> R' x) -> step ro R' s s'.
+Proof.
+  intros A H. destruct A. constructor; auto.
+Qed.
+
+(* a transition that only removes elements *)
+Lemma step_of_shrink ro (R : N -> Prop) s s' :
+  PI s -> below s -> PI s' -> next s' = next s -> cbs s' = cbs s -> keys_shrink s s' ->
+  (forall t x, bit t x s' = true -> bit t x s = true) ->
+  (forall x, ~ R x -> forall t, bit t x s' = bit t x s) ->
+  step ro R s s'.
+Proof.
+  intros HPI HB HPI' Hn Hc Hk Hs Hf.
+  assert (HB' : below s') by (eapply below_shrink; eauto).
+  constructor; auto.
+  - rewrite Hn. apply N.le_refl.
+  - intros x Hx t Ht. apply Hs in Ht. rewrite (fr_bit x s (HB x Hx) t) in Ht. discriminate.
+  - intros x Hx. destruct (bit (TRef x) x s') eqn:E; [| reflexivity].
+    apply Hs in E. rewrite (fr_bit x s (HB x Hx)) in E. discriminate.
+  - intros k _. rewrite Hc. reflexivity.
+  - intros r x _. rewrite Hc. auto.
+  - intros r x _. rewrite Hc. auto.
+Qed.
+
+Lemma mem_fold_sadd ids : forall l x, mem x (fold_left (fun acc y => sadd y acc) ids l) = mem x ids || mem x l.
+Proof.
+  induction ids as [|y ids IH]; intros l x; cbn [fold_left]; [reflexivity|].
+  rewrite IH, mem_sadd, mem_cons. destruct (N.eqb x y), (mem x ids), (mem x l); reflexivity.
+Qed.
+
+(* child_component_attrs.update(...) for placeholders of components prepared during this step *)
+Lemma step_add_cattrs r (R : N -> Prop) s s1 ids :
+  step (Some r) R s s1 ->
+  (forall x, In x ids -> next s <= x /\ x < next s1 /\ mem x (aget r (cbs s1)) = true) ->
+  step (Some r) R s (up_cattrs (fun l => fold_left (fun acc y => sadd y acc) ids l) s1).
+Proof.
+  intros A H.
+  assert (Hb : forall t x, bit t x (up_cattrs (fun l => fold_left (fun acc y => sadd y acc) ids l) s1) =
+                           bit t x s1 || (match t with TCattrs => mem x ids | _ => false end)).
+  { intros t x. destruct t; cbn [bit]; sst; rewrite ?orb_false_r; try reflexivity.
+    rewrite mem_fold_sadd. apply orb_comm. }
+  assert (Hold : forall x, x < next s -> mem x ids = false).
+  { intros x Hx. destruct (mem x ids) eqn:E; [| reflexivity]. apply mem_In in E. apply H in E. lia. }
+  destruct A. constructor.
+  - destruct st_pi0; constructor; assumption.
+  - intros x Hx. sst in Hx. destruct (st_below0 x Hx) as [F1 F2 F3 F4 F5]. constructor; auto.
+    intro t. rewrite Hb, F1. destruct t; try reflexivity.
+    destruct (mem x ids) eqn:E; [| reflexivity]. apply mem_In in E. apply H in E. lia.
+  - exact st_next0.
+  - intros x Hx HR t. rewrite Hb, (st_frozen0 x Hx HR). destruct t; rewrite ?orb_false_r; try reflexivity.
+    rewrite (Hold x Hx). apply orb_false_r.
+  - intros x Hx t Ht. rewrite Hb in Ht. apply (st_shrink0 x Hx).
+    destruct t; rewrite ?orb_false_r in Ht; try exact Ht. rewrite (Hold x Hx), orb_false_r in Ht. exact Ht.
+  - intros x Hx t Ht. sst. rewrite Hb in Ht. apply orb_true_iff in Ht. destruct Ht as [Ht|Ht].
+    + apply (st_logged0 x Hx t Ht).
+    + destruct t; try discriminate. apply mem_In in Ht. apply H in Ht. tauto.
+  - intros x Hx. rewrite Hb, orb_false_r. apply st_noown0. exact Hx.
+  - exact st_cbs_other0.
+  - exact st_cbs_mono0.
+  - exact st_cbs_new0.
+Qed.
+
+Lemma good_info_bits r s s' inf :
+  good_info r s inf -> next s <= next s' -> cbs s' = cbs s ->
+  (forall t, t <> TCattrs -> bit t (i_id inf) s' = bit t (i_id inf) s) -> good_info r s' inf.
+Proof.
+  intros [G1 G2 G3 G4 G5] Hn Hc Hb. constructor.
+  - lia.
+  - rewrite Hb; [exact G2 | discriminate].
+  - rewrite Hb; [exact G3 | discriminate].
+  - rewrite Hc. exact G4.
+  - intros P HP. rewrite Hb; [auto | discriminate].
 Qed.
